@@ -100,12 +100,24 @@ def choose_depth1(m, leaves, prefixes, funcs, allow_leaf=True):
     return ("infix", m.choose([(x, None) for x in INFIX]), choose_leaf(m, leaves), choose_leaf(m, leaves))
 
 
+SMALL = [2.0 ** -20, 1.0 + 2.0 ** -20, -(2.0 ** -20)]          # small but far above the simplifier's 1e-10 tolerance; dyadic, so folds stay exact
+
+
+def small_literal_shape(m):
+    """one operator with a small (or close-to-one) literal on either side of a non-literal operand: the zero / one shortcuts must not fire"""
+    op = m.choose([(x, None) for x in INFIX])
+    c = ("num", m.choose([(x, None) for x in SMALL]))
+    other = choose_leaf(m, [("var", None, "x"), ("addr", None, "a"), ("pi",)])
+    return ("infix", op, c, other) if m.choose([("left", None), ("right", None)]) == "left" else ("infix", op, other, c)
+
+
 def choose_shape(m, tier):
     """quick: every tree with at most one compound operand per operator, plus both operands compound over a small inner alphabet;
     thorough: every tree of depth <= 2 over the full alphabet, then depth 3 with depth-1 operands"""
     if tier == "quick":
         L, P, F = LEAVES_Q, ["Minus"], ["Sine"]
-        k = m.choose([(x, None) for x in ["depth1", "prefix", "call", "left-compound", "right-compound", "both-compound", "deep-chain", "affine"]])
+        k = m.choose([(x, None) for x in ["depth1", "prefix", "call", "left-compound", "right-compound", "both-compound", "deep-chain", "affine", "small-literal"]])
+        if k == "small-literal": return small_literal_shape(m)
         if k == "affine":
             # the affine rules look three levels deep: (A*B + b) + (C*D + d), (A*B) + (C*D), (X + b) + (Y + d)
             A = [("var", None, "x"), ("var", None, "y"), ("num", 2.0), ("addr", None, "a")]
@@ -132,6 +144,7 @@ def choose_shape(m, tier):
         inner = lambda: ("infix", m.choose([(x, None) for x in ["Plus", "Minus", "Star", "Slash"]]), choose_leaf(m, LEAVES_INNER), choose_leaf(m, LEAVES_INNER))
         return ("infix", op, inner(), inner())
     L, P, F = LEAVES_T, PREFIX, FUNCS
+    if m.choose([("trees", None), ("small-literal", None)]) == "small-literal": return small_literal_shape(m)
 
     def tree(d):
         if d == 0: return choose_leaf(m, L)
